@@ -674,6 +674,84 @@ def scan_scratch_tables():
     return list(SCRATCH_TABLES)
 
 
+# ---------------------------------------------------------------------------------------------
+# Tolerant pre-scan used by the search: never raises
+# ---------------------------------------------------------------------------------------------
+
+MUTATING_WORKFLOW_FUNCS = ("register_static_tree", "declare_static_files", "register_nglob", "define_step",
+                           "amend_step", "_supply_files", "_resolve_supply_file", "_declare_file",
+                           "_check_declaration", "_raise_if_glob_match", "_hashes_to_check")
+
+
+def _int_literals(fn, module_consts):
+    out = set()
+    for n in ast.walk(fn):
+        if isinstance(n, ast.Constant) and isinstance(n.value, int) and not isinstance(n.value, bool) \
+                and 16 <= n.value <= 100000:
+            out.add(n.value)
+        if isinstance(n, ast.Name) and n.id in module_consts:
+            out.add(module_consts[n.id])
+        if isinstance(n, ast.Attribute) and n.attr in module_consts:
+            out.add(module_consts[n.attr])
+    return out
+
+
+def _module_int_consts(tree):
+    consts = {}
+    for n in ast.walk(tree):
+        tgt = val = None
+        if isinstance(n, ast.Assign) and len(n.targets) == 1:
+            tgt, val = n.targets[0], n.value
+        elif isinstance(n, ast.AnnAssign) and n.value is not None:
+            tgt, val = n.target, n.value
+        name = tgt.id if isinstance(tgt, ast.Name) else (tgt.attr if isinstance(tgt, ast.Attribute) else None)
+        if name and isinstance(val, ast.Constant) and isinstance(val.value, int) \
+                and not isinstance(val.value, bool) and 16 <= val.value <= 100000:
+            consts[name] = val.value
+    return consts
+
+
+def diagnose():
+    """Facts for the failing-input search, gathered without failing closed:
+    boundaries  integer literals >= 16 seen in the RPC handlers (and the constants they name) and in the
+                mutating Workflow methods they call
+    suspects    handlers on which the strict scan raises
+    multi_block handlers with more than one `async with` statement"""
+    res = {"boundaries": {}, "suspects": {}, "multi_block": {}}
+    try:
+        tree = parse_module(f"{CORE}/director.py")
+        consts = _module_int_consts(tree)
+        cls = next(n for n in tree.body if isinstance(n, ast.ClassDef) and n.name == "DirectorHandler")
+        methods = {n.name: n for n in cls.body if isinstance(n, (ast.FunctionDef, ast.AsyncFunctionDef))}
+        for name, fn in methods.items():
+            lits = _int_literals(fn, consts)
+            if lits:
+                res["boundaries"][name] = sorted(lits)
+            nblocks = sum(isinstance(n, ast.AsyncWith) for n in ast.walk(fn))
+            if nblocks > 1:
+                res["multi_block"][name] = nblocks
+            if any(dotted(d) == "allow_rpc" for d in fn.decorator_list):
+                try:
+                    HandlerScan(set(methods), fn)
+                except TranslatorError as e:
+                    res["suspects"][name] = str(e)
+                except Exception as e:  # noqa: BLE001
+                    res["suspects"][name] = f"{type(e).__name__}: {e}"
+    except Exception as e:  # noqa: BLE001
+        res["error"] = f"{type(e).__name__}: {e}"
+    try:
+        tree = parse_module(f"{CORE}/workflow.py")
+        consts = _module_int_consts(tree)
+        for n in ast.walk(tree):
+            if isinstance(n, (ast.FunctionDef, ast.AsyncFunctionDef)) and n.name in MUTATING_WORKFLOW_FUNCS:
+                lits = _int_literals(n, consts)
+                if lits:
+                    res["boundaries"]["workflow." + n.name] = sorted(lits)
+    except Exception as e:  # noqa: BLE001
+        res["error_workflow"] = f"{type(e).__name__}: {e}"
+    return res
+
+
 def coq_item(it):
     if it[0] == "call":
         _, recv, meth, cls = it
